@@ -242,6 +242,48 @@ def api_probes(ctx):
     IndentationRater.compute_sample_weight(X, y)
     if not (np.array_equal(X, X0) and np.array_equal(y, y0)):
         ctx.violation("array-modified:compute_sample_weight", "training set modified", {})
+    # the standalone rater: built from the caller's training arrays and regressor keyword arguments AS THEY ARE at the
+    # time of the call - editing the arrays afterwards, or an earlier call with other keyword arguments, changes nothing
+    from nanite.rate import rater as nrater
+    from nanite.rate import regressors as nregs
+    with warnings.catch_warnings():
+        warnings.simplefilter("ignore")
+        cur = histlib.fresh(2)
+        cur.fit_model(preprocessing=["compute_tip_position", "correct_tip_offset"])
+        for reg in ("Extra Trees", "Decision Tree", "SVR (linear kernel)"):
+            Xa, ya = X0.copy(), y0.copy()
+            rt = nrater.get_rater(regressor=reg, training_set=(Xa, ya))
+            Xa *= -3.0
+            Xa += 1.0
+            ya[:] = 10 - ya
+            r1 = rt.rate(datasets=cur)[0]
+            r2 = nrater.get_rater(regressor=reg, training_set=(X0.copy(), y0.copy())).rate(datasets=cur)[0]
+            ctx.case({"probe": "training-arrays-edited-after-get_rater", "regressor": reg},
+                     nontrivial=f"probe:rater-arrays:{reg}", bucket="stream=api-probes")
+            if not (r1 == r2 or (np.isnan(r1) and np.isnan(r2))):
+                ctx.violation("rater-aliases-training-arrays", f"get_rater({reg!r}, training_set=(X, y)); X and y edited in "
+                              f"place; rate() gives {r1!r} - a rater built from the values at the time of the call gives "
+                              f"{r2!r}", {"history": [f"rt = get_rater({reg!r}, training_set=(X, y))", "X *= -3; X += 1; "
+                                                      "y[:] = 10 - y", "rt.rate(datasets=curve)"]})
+        snap_reg = deep_state({k: [v[0].__name__, v[1]] for k, v in nrater.reg_dict.items()})
+        for reg, kwx in (("Decision Tree", {"max_depth": 1}), ("Extra Trees", {"n_estimators": 3}),
+                         ("SVR (linear kernel)", {"C": 1e-3})):
+            kw_in = dict(kwx)
+            before = nrater.get_rater(regressor=reg, training_set=(X0.copy(), y0.copy())).rate(datasets=cur)[0]
+            nrater.get_rater(regressor=reg, training_set=(X0.copy(), y0.copy()), **kw_in)
+            after = nrater.get_rater(regressor=reg, training_set=(X0.copy(), y0.copy())).rate(datasets=cur)[0]
+            ctx.case({"probe": "regressor-keywords-of-an-earlier-call", "regressor": reg, "keywords": kwx},
+                     nontrivial=f"probe:rater-kwargs:{reg}", bucket="stream=api-probes")
+            if kw_in != kwx:
+                ctx.violation("argument-modified:get_rater", f"get_rater modified the keyword dictionary {kwx}", {})
+            if not (before == after or (np.isnan(before) and np.isnan(after))):
+                ctx.violation("regressor-keywords-leak", f"get_rater({reg!r}) rates {before!r} before and {after!r} after "
+                              f"another call get_rater({reg!r}, **{kwx})",
+                              {"history": [f"get_rater({reg!r}).rate(curve)", f"get_rater({reg!r}, **{kwx})",
+                                           f"get_rater({reg!r}).rate(curve)"]})
+        if deep_state({k: [v[0].__name__, v[1]] for k, v in nrater.reg_dict.items()}) != snap_reg:
+            ctx.violation("library-defaults-modified:reg_dict", "the table of regressor defaults (nanite.rate.rater.reg_dict) "
+                          "changed during get_rater calls with keyword arguments", {})
 
 
 def run(ctx):
